@@ -1087,6 +1087,7 @@ namespace bloch::runtime {
                 rc->instanceFields = rc->base->instanceFields;
                 rc->instanceFieldIndex = rc->base->instanceFieldIndex;
                 rc->vtable = rc->base->vtable;
+                rc->hasTrackedFields = rc->base->hasTrackedFields;
             }
             for (auto& member : clsNode->members) {
                 if (auto field = dynamic_cast<FieldDeclaration*>(member.get())) {
@@ -1218,6 +1219,7 @@ namespace bloch::runtime {
             rc->instanceFields = rc->base->instanceFields;
             rc->instanceFieldIndex = rc->base->instanceFieldIndex;
             rc->vtable = rc->base->vtable;
+            rc->hasTrackedFields = rc->base->hasTrackedFields;
         }
 
         for (auto& member : tmpl->members) {
